@@ -55,6 +55,7 @@ func init() {
 		ruleM3(c, "C02.B13")        // sizes up to the advertised maximum are accepted, larger ones refused
 		ruleS2(c, "C02.B14")        // removed or replaced objects disappear: unlink follows the removal of the name
 		ruleP11(c, "C02.B15")       // the listing built is the listing returned
+		ruleW1(c, "C02.B16")        // what a request changed in the cached inode is logged: sizes and contents survive a restart
 	}
 }
 
@@ -1196,6 +1197,47 @@ func ruleB2(c *Ctx, id string) {
 			}
 			R.Check(ok, id, FuncName(ownerOf(fn))+"|"+h+": handle and attributes of one object", P.Pos(o.pos), "the handle returned and the attributes returned with it are taken from the same inode", "one inode object", why+": the client caches attributes (type, size, file id) under a handle they do not belong to")
 		}
+	}
+	// READLINK returns the whole target: the count that reaches Inode.Read for a symbolic link is the link's size
+	// (SYMLINK accepts targets up to wtmax; a bound on the way - rtmax, a page - cuts the target short with status OK)
+	if rl := P.Func("nfs.(*Nfs).NFSPROC3_READLINK"); rl != nil {
+		nR := 0
+		for _, sc := range scopesOf(rl) {
+			for _, ci := range P.CallsIn(sc.Fn, funcIs(V.InodeRead)) {
+				as := fullArgs(ci)
+				if len(as) < 4 {
+					continue
+				}
+				nR++
+				recv := sc.S.resolve(stripConv(as[0]))
+				ok, why := true, ""
+				seen := map[ssa.Value]bool{}
+				var leaf func(v ssa.Value)
+				leaf = func(v ssa.Value) {
+					v = sc.S.resolve(stripConv(v))
+					if seen[v] {
+						return
+					}
+					seen[v] = true
+					if ph, isP := v.(*ssa.Phi); isP {
+						for _, e := range ph.Edges {
+							leaf(e)
+						}
+						return
+					}
+					if k, isk := constInt(v); isk && k == 0 {
+						return // the handler's own placeholder: replaced on the symlink path
+					}
+					if n, fl, base, isElem := loadedField(v); !isElem && n == V.Inode && fl == "Size" && sc.S.resolve(stripConv(base)) == recv {
+						return
+					}
+					ok, why = false, symOf(sc.Fn, v)
+				}
+				leaf(as[3])
+				R.Check(ok, id, "NFSPROC3_READLINK|reads the whole target", P.Pos(ci.Pos()), "the count handed to Inode.Read for a symbolic link is the link's size", "Inode.Size of the link", "the count is "+why+": a target longer than that bound is returned cut short, with status OK")
+			}
+		}
+		R.Check(nR > 0, id, "NFSPROC3_READLINK|reads through Inode.Read", P.Pos(rl.Pos()), "READLINK reads the target with Inode.Read", fmt.Sprintf("%d reads", nR), "no Inode.Read reachable in READLINK's own code")
 	}
 	R.Check(nT >= 7, id, "inventory|reply fields with a source", "?", "the data-bearing reply fields are found", fmt.Sprintf("%d sites", nT), fmt.Sprintf("only %d of the expected reply-field sites found", nT))
 }
